@@ -107,6 +107,10 @@ ASSUMPTIONS = [
     'parallelism, the number and the shape of the accepted intersections), '
     'not a geometric description of the input',
     'nothing is proved about binary64 rounding (planeSide has no tolerance)',
+    'LAT=2 cells written with macrobody facets (b.k) are covered by the point '
+    'sweep of the decks only: the extract_surfaces model takes whole surface '
+    'numbers, and the run-time wrapper of develop_lattice records numbers '
+    'without the facet suffix (such calls are left out of tie:develophex)',
     'surfaces carrying a TRn, cell_transform / pot_transform and the writer '
     'are outside the C07 models: a TRCL/TRn prism is covered by the linked '
     'invariance theorem on the plane frames (C04) and observed at the call '
